@@ -29,6 +29,30 @@ def _cov_atom(begin, end, pol):
     return ("coverages.max_coverage_in_range(%s, %s) < max_cov" % (begin, end), pol)
 
 
+def _ga(cfg, fnode, node):
+    """Guard atoms of a node, where a flag local stands for the coverage test it holds (`has_room = not cov(b, e) >= cap`,
+    later `if has_room and ...` / `elif not has_room`) as long as the flag is fresh: no add_read can run between the
+    statement that computes it and the test that reads it (coverage only changes through add_read)."""
+    out = set(guard_atoms(cfg, node))
+    adds = [m for m in cfg.g.nodes if cfg.kind(m) == "stmt" and cfg.ast(m) is not None and any(isinstance(c, ast.Call) and isinstance(c.func, ast.Attribute) and c.func.attr == "add_read" for c in ast.walk(cfg.ast(m)))]
+    for t, lab in cfg.dominating_edges(node):
+        if cfg.kind(t) != "test" or lab not in ("true", "false"):
+            continue
+        for at, pol in atoms(cfg.ast(t), lab == "true"):
+            if not at.isidentifier():
+                continue
+            d = util.single_def(fnode, at)
+            if d is None or "max_coverage_in_range" not in u(d):
+                continue
+            dn = cfg.node_of(util.stmt_of(d))
+            if not cfg.dominates(dn, t):
+                continue
+            stale = any(cfg.find_path(dn, m, avoid_nodes=[t]) is not None and cfg.find_path(m, t, avoid_nodes=[dn]) is not None for m in adds)
+            if not stale:
+                out |= atoms(d, pol)
+    return out
+
+
 def r1(ctx):
     n = 0
     for q in (RS + "._slice_read_selection", RS + ".readselection_helper"):
@@ -40,7 +64,7 @@ def r1(ctx):
             n += 1
             b, e = [u(a) for a in c.args]
             node = cfg.node_containing(c)
-            ga = guard_atoms(cfg, node)
+            ga = _ga(cfg, fi.node, node)
             ok = _cov_atom(b, e, True) in ga
             off_by_one = ("max_cov < coverages.max_coverage_in_range(%s, %s)" % (b, e), False) in ga
             ctx.ob(fi.qual, "check-before-add:%s" % u(c), ok, fi.loc(c), "add_read(%s, %s) only where max_coverage_in_range(%s, %s) < max_cov was established" % (b, e, b, e) if ok else ("add_read is guarded by `not (coverage > max_cov)`: coverage can reach max_cov + 1" if off_by_one else "add_read(%s, %s) is not dominated by the rejection test `max_coverage_in_range(%s, %s) >= max_cov`" % (b, e, b, e)))
@@ -129,7 +153,7 @@ def r3(ctx):
                 adds = [c for c in ctx.prog.calls_in(sl.node) if u(c.func) == "%s.add" % inner]
                 ok = len(adds) == 1
                 if ok:
-                    ga = guard_atoms(scfg, scfg.node_containing(adds[0]))
+                    ga = _ga(scfg, sl.node, scfg.node_containing(adds[0]))
                     blk = util.stmt_of(adds[0]).parent
                     paired = any(u(c.func) == "coverages.add_read" and util.stmt_of(c).parent is blk for c in ctx.prog.calls_in(sl.node))
                     rejected = any(t.startswith("coverages.max_coverage_in_range(") and t.endswith("< max_cov") and not p for t, p in ga)
@@ -140,7 +164,7 @@ def r3(ctx):
         if u(c.func) in ("%s.remove" % und, "%s.discard" % und):
             removals += 1
             node = cfg.node_containing(c)
-            ga = guard_atoms(cfg, node)
+            ga = _ga(cfg, h.node, node)
             rejected = any(t.startswith("coverages.max_coverage_in_range(") and t.endswith("< max_cov") and not p for t, p in ga)
             adds = [cfg.node_containing(x) for x in ctx.prog.calls_in(h.node) if u(x.func) == "coverages.add_read"]
             selected = any(cfg.dominates(a, node) and cfg.find_path(a, node) is not None for a in adds) and any(u(x.func) == "selected_reads.add" and u(x.args[0]) == u(c.args[0]) for x in ctx.prog.calls_in(h.node))
